@@ -103,12 +103,10 @@ class _Runner(_Processor):
     ) -> None:
         async for key, payload, params in consumer:
             actor = actors[key.topic]
-            if self._limiter.locked():
+            paused = self._limiter.locked()
+            if paused:
                 await consumer.pause()
-                await self._limiter.acquire()
-                await consumer.unpause()
-            else:
-                await self._limiter.acquire()
+            await self._limiter.acquire()
             if self.max_tasks_exceeded:
                 # the whole budget is committed to executions which have already started
                 self._limiter.release()
@@ -117,6 +115,9 @@ class _Runner(_Processor):
             t = asyncio.create_task(self._process_with_event(actor, key, payload, params))
             self._tasks.add(t)
             t.add_done_callback(self._task_callback)
+            if paused:
+                # only now: a slot which is counted as taken must always belong to a started task
+                await consumer.unpause()
 
     async def run_one_queue(
         self,
